@@ -1,5 +1,7 @@
 import BddVerif.Props.C03
 import BddVerif.Lemmas.AlgoEqNestedDriver
+import BddVerif.Lemmas.AlgoEq2RelPanic
+import BddVerif.Lemmas.AlgoEq2RelQuant
 #print axioms B.Props.C03.var_exists_canon
 #print axioms B.Props.C03.var_for_all_canon
 #print axioms B.Props.C03.var_exists_spec
@@ -34,3 +36,9 @@ import BddVerif.Lemmas.AlgoEqNestedDriver
 #print axioms B.AlgoEq.nested_apply_panic
 #print axioms B.AlgoEq.binary_op_nested_eq_model
 #print axioms B.AlgoEq.nested_apply_eq_model_driver
+#print axioms B.AlgoEq2Rel.Bdd_var_exists_eq_canon
+#print axioms B.AlgoEq2Rel.Bdd_var_for_all_eq_canon
+#print axioms B.AlgoEq2Rel.Bdd_exists_eq_model
+#print axioms B.AlgoEq2Rel.Bdd_for_all_eq_model
+#print axioms B.AlgoEq2Rel.Bdd_binary_op_with_exists_eq_model
+#print axioms B.AlgoEq2Rel.Bdd_var_exists_panics
